@@ -6,3 +6,5 @@ Definition c11_grace_ms : N := 5000%N.
 Definition c11_grace2_ms : N := 5000%N.
 Definition c11_wait_delay_ms : N := 5000%N.
 Definition c11_response_timeout_ms : N := 10000%N.
+Definition c11_max_client_response : N := 16777216%N.
+Definition c11_max_server_response : N := 1048576%N.
